@@ -21,7 +21,7 @@ func init() {
 			"(DOM-noedit) in Visit every write to a node or node slice is inside the isEdited arm and edits are only recorded for ActionUpdate (or while propagating existing edits), so a traversal requesting no edits cannot modify the tree.",
 		NotDecided: "exactly-once, nesting, key/parent/path/ancestors values, break immediacy.",
 	}
-	register(&core.Rule{Name: "C14/TAB-keys", Props: []string{"C14", "C08"}, Min: 60,
+	register(&core.Rule{Name: "C14/TAB-keys", Props: []string{"C14"}, Min: 60,
 		Doc: "child-key table matches the ast structs: names, completeness, order", Run: c14Keys})
 	register(&core.Rule{Name: "C14/PAIR-typeinfo", Props: []string{"C14", "C02"}, Min: 10,
 		Doc: "TypeInfo pushes and pops agree per node kind", Run: c14TypeInfo})
